@@ -362,6 +362,8 @@ pub enum VecEmp<T> {
     A2([T; 2]),
     A3([T; 3]),
     A4([T; 4]),
+    /// one more item than a one-byte length type can count
+    A256(Box<[T; 256]>),
 }
 
 unsafe impl<T: Flat + Sized, L: Flat + Length> Emplacer<FlatVec<T, L>> for VecEmp<T> {
@@ -374,6 +376,7 @@ unsafe impl<T: Flat + Sized, L: Flat + Length> Emplacer<FlatVec<T, L>> for VecEm
             VecEmp::A2(a) => vec::FromArray(a).emplace_unchecked(bytes),
             VecEmp::A3(a) => vec::FromArray(a).emplace_unchecked(bytes),
             VecEmp::A4(a) => vec::FromArray(a).emplace_unchecked(bytes),
+            VecEmp::A256(a) => vec::FromArray(*a).emplace_unchecked(bytes),
         }
     }
 }
@@ -388,6 +391,13 @@ impl<T: SizedShape, L: Flat + Length> Shape for FlatVec<T, L> {
     fn emp<'a>(v: &'a Value, fl: u32) -> VecEmp<T> {
         let items: Vec<T> = vec_items(v);
         let n = items.len();
+        if fl % 3 == 1 && n == 256 {
+            let v: Vec<T> = items;
+            return match <Box<[T; 256]>>::try_from(v.into_boxed_slice()) {
+                Ok(a) => VecEmp::A256(a),
+                Err(_) => unreachable!(),
+            };
+        }
         if fl % 3 == 1 && n <= 4 {
             let mut it = items.into_iter();
             let mut nx = || it.next().unwrap();
